@@ -19,13 +19,21 @@ META = {
                   "returns None for all of them, C15_param_index_agrees relates the exact index computation to the model on the "
                   "parameters of the property. The history theorems (C15_history_*) start from ChaCha::new with an 8- or 12-byte "
                   "nonce, not from XChaCha states. No axioms.",
-    "rule": "cases = (key, 8- or 12-byte nonce, 3..9 operations) from seeded xoshiro; operations: set_stream_param(0|1, "
-            "structured 64-bit value) 30%, get 20%, refill(drounds 4|6|10) 20%, compare with a second state that differs "
-            "in exactly one key bit (8 word positions; lowest / highest / random bit), exactly one bit of one of the four d words, several words at once with differences that cancel under xor or addition or permute words, or not at all 30%; "
-            "distinct = distinct (key, nonce, operation list), all non-trivial; direct checks on the implementation: "
-            "get(set v) = v, other parameter unchanged, refill = block of a cipher created with nonce = stream id and "
-            "seeked to the counter, stream32_eq/stream64_eq = expected truth value for the word that differs; the model "
-            "replays the whole sequence inside coqc and must reproduce every get value, block and predicate value",
+    "rule": 'cases = (key, 8- or 12-byte nonce, 3..9 operations) from seeded xoshiro; nonces: byte-index pattern, a '
+            'single non-zero word in each position, all ones, all zero, walking one (first 16 cases, both lengths), then '
+            'walking one 1/8 / random; the case carries the NONCE and the model builds the initial state itself '
+            '(init_chacha key nonce); the d words the implementation reports after ChaCha::new are compared with the '
+            "model's and with the nonce words, and the first block with block 0 of ChaCha20 / the IETF type created with "
+            'the same key and nonce; operations: set_stream_param(0|1, structured 64-bit value) 30%, get 20%, '
+            'refill(drounds 4|6|10) 20%, compare with a second state that differs in exactly one key bit (8 word '
+            'positions; lowest / highest / random bit), exactly one bit of one of the four d words, several words at once '
+            'with differences that cancel under xor or addition or permute words, or not at all 30%; distinct = distinct '
+            '(key, nonce, operation list), all non-trivial; direct checks on the implementation: get(set v) = v, other '
+            'parameter unchanged, refill = block of a cipher created with nonce = stream id and seeked to the counter (a '
+            'cipher that cannot produce the block is a failure; counters >= 2^58 cannot be reached by any cipher type and '
+            'are checked by the model only, counted in the evidence), stream32_eq/stream64_eq = expected truth value for '
+            'the word that differs; the model replays the whole sequence inside coqc and must reproduce every get value, '
+            'block and predicate value; host debug/release 600, forced SSE2 release 200, portable debug and release 200',
     "assumptions": ["little-endian host", "parameter index is 0 or 1"],
 }
 
@@ -36,17 +44,23 @@ def run(ctx):
     if not ok:
         raise vlib.CheckError("Run/ChaCha.vo does not build: %s" % log[-2000:])
     n = 600 if ctx.quick else 25000
-    # (profile, harness features, label): the portable back end (ppv-lite86 `no_simd`: generic.rs, where
-    # vec128_storage is a union with its own PartialEq) is a different implementation of ==, insert, extract
-    for profile, feats, label in (("debug", (), "host-backend"), ("release", (), "host-backend"),
-                                  ("debug", ("no_simd",), "portable-backend")):
+    m = max(200, n // 3)
+    # (profile, harness features, forced back-end level, label, cases): the portable back end (ppv-lite86 `no_simd`:
+    # generic.rs, where vec128_storage is a union with its own PartialEq) is a different implementation of ==, insert,
+    # extract, in both profiles; one forced x86 back end because vec128_storage <-> [u32; 4] and refill go through it
+    for profile, feats, level, label, cnt in (("debug", (), 0, "host-backend", n), ("release", (), 0, "host-backend", n),
+                                              ("release", (), 1, "forced-sse2", m),
+                                              ("debug", ("no_simd",), 0, "portable-backend", m),
+                                              ("release", ("no_simd",), 0, "portable-backend", m)):
         binary, log = vlib.cargo_build(features=feats, profile=profile, bin_name="h_chacha")
         if binary is None:
             raise vlib.CheckError("harness build failed (%s %s): %s" % (profile, feats, log[-2000:]))
-        s = vlib.correspondence(ctx, binary, "c15", ["--count", n if not feats else max(200, n // 3)], "%s/%s" % (label, profile))
-        ctx.log("%s/%s: %d cases, %d disagree with the model, %d direct failures" %
-                (label, profile, s.get("evaluations", 0), len(s["failing"]), len(s.get("direct_failures", []))))
+        s = vlib.correspondence(ctx, binary, "c15", ["--count", cnt, "--level", level], "%s/%s" % (label, profile))
+        ctx.log("%s/%s: %d cases (nonce lengths %s), %d disagree with the model, %d direct failures" %
+                (label, profile, s.get("evaluations", 0), s.get("nonce_length"), len(s["failing"]), len(s.get("direct_failures", []))))
+        if not feats and s.get("backend_level_read_back") != level:
+            raise vlib.CheckError("back-end level %d requested, the harness reports %r" % (level, s.get("backend_level_read_back")))
         vlib.decide_relative(ctx, s, explain="explain_c15_ops",
                              theorem="C15_get_set_param, C15_set_param_isolated, C15_set_params_eq_new, "
                                      "C15_stream64_eq_iff, C15_stream32_eq_iff",
-                             what="Model/ChaChaGuts.v set_stream_param / get_stream_param / stream32_eq / stream64_eq / refill")
+                             what="Model/ChaChaGuts.v ChaCha::new / set_stream_param / get_stream_param / stream32_eq / stream64_eq / refill")
